@@ -28,6 +28,10 @@ type closestIn struct {
 	// loaded by computePwmMap (later start)
 	// "hwmon" = `pwmMap:` override of a real HwMonFan with the limits below (they must not influence what is written)
 	Route     string `json:"route,omitempty"`
+	// direct route only: the SAME controller held another map with the same keys before ("const": one output for every
+	// key, "rev": the outputs in reverse key order) and derived its supported inputs from it; what is written afterwards
+	// depends on the current map alone
+	Prev      string `json:"prev,omitempty"`
 	Lo        *int   `json:"lo,omitempty"`
 	Hi        *int   `json:"hi,omitempty"`
 	NeverStop bool   `json:"never_stop,omitempty"`
@@ -57,7 +61,25 @@ func runClosest(in closestIn) (closestObs, string) {
 	relink := func() {}
 	switch in.Route {
 	case "":
-		c.VerifSetPwmMap(pm)
+		if in.Prev != "" {
+			prev := map[int]int{}
+			for i, kv := range in.Pm {
+				switch in.Prev {
+				case "const":
+					prev[kv[0]] = 7
+				default: // "rev"
+					prev[kv[0]] = in.Pm[len(in.Pm)-1-i][1]
+				}
+			}
+			c.VerifSetPwmMap(prev)
+			_ = c.VerifSetPwm(in.Pm[0][0])
+			c.VerifSetPwmMap(pm)
+			keys = append([]int{}, c.VerifDistinct()...)
+			sort.Ints(keys)
+			obs.Supported = append([]int{}, keys...)
+		} else {
+			c.VerifSetPwmMap(pm)
+		}
 	case "config", "persist", "hwmon", "cmd", "init", "symlink", "default":
 		closestSeq++
 		dir := filepath.Join(closestWork, fmt.Sprintf("r%d", closestSeq))
@@ -253,6 +275,11 @@ func init() {
 			emit1(in, append(tags, "route="+r0)...)
 			nEmit++
 			random := len(tags) > 0 && tags[0] == "random"
+			if in.Route == "" && in.Prev == "" && len(in.Pm) > 0 && (random || nEmit%3 == 1) {
+				in2 := in
+				in2.Prev = []string{"const", "rev"}[nEmit%2]
+				emit1(in2, append(append([]string{}, tags...), "route=direct", "prev="+in2.Prev)...)
+			}
 			// every random map, and a rotating tenth of the exhaustive ones, also through the two real routes
 			for ri, route := range []string{"config", "persist", "hwmon", "cmd", "init", "symlink"} {
 				want := random || nEmit%30 == ri*10
